@@ -140,6 +140,12 @@ func sliceRoots(v ssa.Value, top *ssa.Function, seen map[ssa.Value]bool) sliceIn
 			o := sliceRoots(x.Common().Args[0], top, seen)
 			o.clipped = false
 			add(o)
+		case "slices.Grow", "slices.Clip":
+			/* The same elements, with more (or no) spare capacity: what
+			append may do to it is what it may do to the argument. */
+			o := sliceRoots(x.Common().Args[0], top, seen)
+			o.clipped = "slices.Clip" == calleeName(x.Common())
+			add(o)
 		default:
 			out.roots["other"] = true
 			out.clipped = false
@@ -235,6 +241,7 @@ var uuReadOnlyCallees = map[string]bool{
 	"bytes.ReplaceAll": true, "bytes.Replace": true, "bytes.ContainsRune": true, "bytes.ContainsAny": true, "bytes.IndexAny": true,
 	"bytes.Compare": true, "bytes.EqualFold": true, "bytes.TrimLeft": true, "bytes.Trim": true, "bytes.Fields": true, "bytes.SplitN": true,
 	"bytes.LastIndex": true, "bytes.IndexRune": true, "slices.Equal": true, "bytes.ToUpper": true, "bytes.ToLower": true,
+	"slices.Grow": true, "slices.Clip": true,
 }
 
 func checkC15(p *Prog, r *Report) {
@@ -399,6 +406,9 @@ func checkC15(p *Prog, r *Report) {
 					name := calleeName(x.Common())
 					switch {
 					case uuReadOnlyCallees[name]:
+					case strings.HasPrefix(name, "(*sync/atomic."):
+						/* Counters kept for diagnostics: atomic operations
+						return and cannot fail. */
 					case "" == name:
 						/* Dynamic call: only the iterator from slices.Chunk. */
 						if it, ok := x.Common().Value.(*ssa.Call); ok && "slices.Chunk" == calleeName(it.Common()) {
